@@ -5,6 +5,7 @@ import (
 	"go/constant"
 	"go/token"
 	"go/types"
+	"strings"
 	"sync"
 
 	"golang.org/x/tools/go/ssa"
@@ -12,30 +13,30 @@ import (
 
 // RunCfg: per-harness bounds and modes.
 type RunCfg struct {
-	Name        string         `json:"name"`
-	Func        string         `json:"func"` // "pkgpath.FuncName"
-	Mode        string         `json:"mode"` // "canonical" | "explore"
-	Preempt     int            `json:"preempt"`
-	Unwind      int            `json:"unwind"`
-	MaxSteps    int64          `json:"max_steps"`
-	MaxPaths    int            `json:"max_paths"`
-	MaxDepth    int            `json:"max_depth"`
-	TimeoutS    int            `json:"timeout_s"`
-	Params      map[string]int `json:"params"`
-	IntMode     bool           `json:"int_mode"`
-	Race        bool           `json:"race"`
-	Ledger      bool           `json:"ledger"`
-	PoolAny     bool           `json:"pool_any"`
-	TimerRace   bool           `json:"timer_race"`
-	OpaqueMake  bool           `json:"opaque_make"`
-	Reach       []string       `json:"reach"`        // markers that must be reached
-	ExpectViol  []string       `json:"expect_viol"`  // labels (prefix) that must be violated (twins)
-	Sequential  bool           `json:"sequential"`   // eligible for native replay
-	Notes       string         `json:"notes"`
-	ConcMax     int            `json:"conc_max"` // max values when concretizing
-	Twin        bool           `json:"twin"`
-	QueryMs     int            `json:"query_ms"`
-	Group       string         `json:"group"`
+	Name       string         `json:"name"`
+	Func       string         `json:"func"` // "pkgpath.FuncName"
+	Mode       string         `json:"mode"` // "canonical" | "explore"
+	Preempt    int            `json:"preempt"`
+	Unwind     int            `json:"unwind"`
+	MaxSteps   int64          `json:"max_steps"`
+	MaxPaths   int            `json:"max_paths"`
+	MaxDepth   int            `json:"max_depth"`
+	TimeoutS   int            `json:"timeout_s"`
+	Params     map[string]int `json:"params"`
+	IntMode    bool           `json:"int_mode"`
+	Race       bool           `json:"race"`
+	Ledger     bool           `json:"ledger"`
+	PoolAny    bool           `json:"pool_any"`
+	TimerRace  bool           `json:"timer_race"`
+	OpaqueMake bool           `json:"opaque_make"`
+	Reach      []string       `json:"reach"`       // markers that must be reached
+	ExpectViol []string       `json:"expect_viol"` // labels (prefix) that must be violated (twins)
+	Sequential bool           `json:"sequential"`  // eligible for native replay
+	Notes      string         `json:"notes"`
+	ConcMax    int            `json:"conc_max"` // max values when concretizing
+	Twin       bool           `json:"twin"`
+	QueryMs    int            `json:"query_ms"`
+	Group      string         `json:"group"`
 }
 
 type fnInfo struct {
@@ -249,7 +250,19 @@ func (g *G) tpanic(kind, msg string, pos token.Pos) {
 	if pos == token.NoPos && g.fr != nil {
 		pos = g.fr.pos
 	}
-	panic(targetPanic{v: msg, kind: kind, pos: g.vm.posStr(pos)})
+	panic(targetPanic{v: msg, kind: kind, pos: g.vm.posStr(pos), fn: g.curFn()})
+}
+
+func (g *G) curFn() string {
+	for fr := g.fr; fr != nil; fr = fr.caller {
+		if fr.info.isMangos {
+			return strings.ReplaceAll(fr.fn.String(), "go.nanomsg.org/mangos/v3/", "")
+		}
+	}
+	if g.fr != nil {
+		return g.fr.fn.String()
+	}
+	return "?"
 }
 
 // ---- calls
@@ -495,7 +508,7 @@ func (g *G) visit(fr *Frame, ins ssa.Instruction) int {
 				}
 			}
 		}
-		panic(targetPanic{v: msg, kind: "explicit", pos: vm.posStr(ins.Pos())})
+		panic(targetPanic{v: msg, kind: "explicit", pos: vm.posStr(ins.Pos()), fn: g.curFn()})
 	case *ssa.Send:
 		g.chanSend(fr.get(ins.Chan).(*ChanV), fr.get(ins.X), ins.Pos())
 	case *ssa.Store:
@@ -1188,7 +1201,7 @@ func (g *G) callBuiltin(b *ssa.Builtin, args []Value, pos token.Pos, call *ssa.C
 		g.chanClose(args[0].(*ChanV), pos)
 		return nil
 	case "panic":
-		panic(targetPanic{v: valStr(args[0]), kind: "explicit", pos: vm.posStr(pos)})
+		panic(targetPanic{v: valStr(args[0]), kind: "explicit", pos: vm.posStr(pos), fn: g.curFn()})
 	case "print", "println":
 		return nil
 	case "recover":
